@@ -175,7 +175,7 @@ def many_zones_and_perms(ctx):
     ctx.sample(sub, {"zones": 1000, "permutations": 720})
 
 
-def zone_counts(ctx):
+def zone_counts(ctx, only=None):
     """Every number of zones K in 1..300 [1..1100] and the sizes around every power of two up to 1025 [65537]: each zone
     populated (two pixels, one of them possibly nodata), some pixels outside all zones, through the accessor on numpy- and
     dask-backed cubes and through the kernel, for every zone-raster dtype / marker that can hold the ids."""
@@ -183,10 +183,13 @@ def zone_counts(ctx):
     import xarray as xr
     zm = _zonal()
     sub = "zone_counts"
-    ks = set(range(1, 1101 if ctx.thorough() else 301))
-    for e in range(1, 17 if ctx.thorough() else 11):
+    thorough = only is None and ctx.thorough()
+    ks = set(range(1, 1101 if thorough else 301))
+    for e in range(1, 17 if thorough else 11):
         ks |= {2 ** e - 1, 2 ** e, 2 ** e + 1}
     ks |= {1000}
+    if only is not None:
+        ks = {int(only)}
     time = pd.date_range("2000-01-01", periods=2, freq="D")
     nrun = 0
     for K in sorted(ks):
@@ -215,7 +218,7 @@ def zone_counts(ctx):
                 if backend != "kernel" and K > 2100 and K not in (32767, 32768, 32769, 65535, 65536, 65537):
                     continue
                 key_fn = lambda t: {"num_zones": K, "zone_dtype": zdt, "zone_nodata": znd, "backend": backend, "step": int(t)}
-                case_fn = lambda t: {"kind": "zone_counts"}
+                case_fn = lambda t: {"kind": "zone_counts", "K": K}
                 try:
                     if backend == "kernel":
                         res = np.asarray(zm.do_mean(pix, zr, K, ND, znd, np.float64))
@@ -538,7 +541,7 @@ def replay(sub, case, p):
     elif case["kind"] == "zdt":
         zone_dtypes(p)
     elif case["kind"] == "zone_counts":
-        zone_counts(p)
+        zone_counts(p, only=case["K"])
     elif case["kind"] == "joint_zones":
         joint_zones(p)
     elif case["kind"] == "vdt":
